@@ -1,8 +1,8 @@
 SPECIFICATION Spec
 CONSTANTS
+  Base = {"a", "x", "A", "0", ".", "-", "_", ":", "/", "@", "[", "]", "!"}
   MaxFlat = 5
   MaxMacroFlat = 3
   PartsLevel = 2
 INVARIANT MCLaws
-INVARIANT Emit
 CHECK_DEADLOCK FALSE
